@@ -214,6 +214,107 @@ def Source.value? : Source → Option S
     | _ => none
   | .failed => none
 
+/-! ## The spellings of a declared reference (`DataReference.absoluteReference` / `relativeReference`)
+
+`FlowIR.ParseDataReference` splits the text of a reference at its one `:` and, for a reference to a component,
+the part before it at the FIRST `/`: what precedes is the producer, what follows is the *file part*.  The file
+part is `None` when the text has no `/` and the EMPTY string when the text ends in a bare `/`
+(`Producer/:ref`, the contents-of-the-directory spelling): the two are different references with different
+spellings (`Producer:ref` / `Producer/:ref`) and different values (`<dir>` / `<dir>/`).  Both spellings and the
+resolved path append the file part with `os.path.join` whenever it `is not None`. -/
+
+/-- `os.path.join(a, b)`: an absolute `b` replaces `a`; otherwise one separator is put between the two unless `a`
+is empty or already ends in one -/
+def pjoin (a b : S) : S :=
+  if b.head? = some '/' then b
+  else if a.isEmpty || a.getLast? = some '/' then a ++ b
+  else a ++ '/' :: b
+
+/-- `base` followed by the optional file part (`if self.fileRef is not None: os.path.join(base, self.fileRef)`) -/
+def withFile (base : S) : Option S → S
+  | none => base
+  | some f => pjoin base f
+
+/-- What a `DataReference` keeps of its text.  `stage = none`: direct reference (no namespace). -/
+structure Parts where
+  stage : Option Nat
+  name : S
+  /-- `none`: no file part; `some []`: the text ends in a bare `/` -/
+  file : Option S
+  method : S
+  deriving DecidableEq, Repr
+
+def stageText (n : Nat) : S := "stage".toList ++ natToDigits n ++ ['.']
+
+/-- `ComponentIdentifier.identifier` -/
+def Parts.identifier (p : Parts) : S :=
+  match p.stage with
+  | some n => stageText n ++ p.name
+  | none => p.name
+
+/-- `DataReference.absoluteReference` -/
+def Parts.absSpelling (p : Parts) : S := withFile p.identifier p.file ++ ':' :: p.method
+
+/-- `DataReference.relativeReference` (`relativeIdentifier` is the component name) -/
+def Parts.relSpelling (p : Parts) : S := withFile p.name p.file ++ ':' :: p.method
+
+/-- the part of a reference before the `:`, for a reference to a component: split at the first `/` -/
+def splitPath (path : S) : S × Option S :=
+  match splitFirst '/' path with
+  | none => (path, none)
+  | some (a, b) => (a, some b)
+
+/-- `re.match("stage([0-9]+)", s)`: the number after a leading `stage` (what follows the digits is ignored) -/
+def stagePrefix? (s : S) : Option Nat :=
+  if "stage".toList.isPrefixOf s then digitsToNat? ((s.drop 5).takeWhile isDigit) else none
+
+/-- `FlowIR.ParseProducerReference(reference, index)`: `stage<N>.<name>` names its stage, anything else belongs
+to the stage `index` of the consumer -/
+def parseProducer (index : Nat) (r : S) : Nat × S :=
+  match splitFirst '.' r with
+  | none => (index, r)
+  | some (st, nm) =>
+    match stagePrefix? st with
+    | some n => (n, nm)
+    | none => (index, r)
+
+/-- `DataReference(text, stageIndex=consumer)`.  `direct`: the text before the first `/` is one of
+`FlowIR.SpecialFolders` or otherwise not a component of the graph (decided by the loader; an input of the
+model): the whole path is the producer, there is no file part and no namespace.  `none`: not exactly one `:`.
+Absolute paths (`/…`) are outside the model. -/
+def parseRef (consumer : Nat) (direct : Bool) (text : S) : Option Parts :=
+  match splitFirst ':' text with
+  | none => none
+  | some (path, method) =>
+    if method.contains ':' then none
+    else if direct then some { stage := none, name := path, file := none, method := method }
+    else
+      let (prod, file) := splitPath path
+      let (st, nm) := parseProducer consumer prod
+      some { stage := some st, name := nm, file := file, method := method }
+
+/-- the relative spelling denotes the reference from the consumer's stage (`spellings_of` of the repaired code) -/
+def Parts.relActive (consumer : Nat) (p : Parts) : Bool :=
+  match p.stage with
+  | none => true
+  | some n => n == consumer
+
+/-- the path a `:ref` (or `:copy`, `:link` …) reference resolves to: the producer's location with the file part
+joined to it when there is one — an empty file part leaves the trailing separator -/
+def refPath (location : S) (file : Option S) : S := withFile location file
+
+/-- the path one loop instance contributes to a `:loopref` reference: this branch tests the file part for
+truthiness (`if self.fileRef:`), an empty file part is dropped here -/
+def loopRefPath (location : S) : Option S → S
+  | some (c :: f) => pjoin location (c :: f)
+  | _ => location
+
+/-- the spellings with the file part tested for TRUTHINESS instead of `is not None` (not what the code does:
+kept to state in `Witness.C10` why the distinction matters) -/
+def withFileTruthy (base : S) : Option S → S
+  | some (c :: f) => pjoin base (c :: f)
+  | _ => base
+
 /-- a declared reference together with what its value is computed from -/
 structure Decl where
   abs : S
@@ -225,6 +326,29 @@ structure Decl where
 
 def Decl.toRef (d : Decl) : Ref :=
   { abs := d.abs, rel := d.rel, relActive := d.relActive, kind := d.kind, value := d.source.value? }
+
+/-- `ref`/`loopref` are substituted by path(s), `output`/`loopoutput` by contents, the staging methods not at all -/
+def kindOf (method : S) : Kind :=
+  if method = "ref".toList || method = "loopref".toList then .ref
+  else if method = "output".toList || method = "loopoutput".toList then .output
+  else .other
+
+/-- what `resolveArguments` reads from the `DataReference` made of these parts -/
+def Parts.toDecl (consumer : Nat) (p : Parts) (source : Source) : Decl :=
+  { abs := p.absSpelling, rel := p.relSpelling, relActive := p.relActive consumer, kind := kindOf p.method,
+    source := source }
+
+/-- a declared reference given by its TEXT (as written under `references:`), read the way the code reads it -/
+def declOfText (consumer : Nat) (direct : Bool) (text : S) (source : Source) : Option Decl :=
+  (parseRef consumer direct text).map fun p => p.toDecl consumer source
+
+/-- the text of a reference to a component: producer, optional file part after a `/` … -/
+def pathText (producer : S) : Option S → S
+  | none => producer
+  | some f => producer ++ '/' :: f
+
+/-- … and the method after the `:` -/
+def refText (producer : S) (file : Option S) (method : S) : S := pathText producer file ++ ':' :: method
 
 /-- repaired `resolveArguments` with the reference values computed by the model of `DataReference.resolve` -/
 def resolveD (decls : List Decl) (args : S) : Result := resolve (decls.map Decl.toRef) args
